@@ -128,6 +128,33 @@ def tlc_trace(spec, checks, trace_path, workdir, timeout=1800):
     return r
 
 
+def tlc_behaviours(spec, cfg_text, workdir, env, num, depth, seed, timeout=900, exhaustive=False):
+    """Run a Gen_* behaviour generator; returns (list of behaviour JSON strings, tlc result)."""
+    extra = [] if exhaustive else ["-simulate", f"num={num}", "-depth", str(depth), "-seed", str(seed)]
+    r = tlc(spec, cfg_text, workdir, env=env, workers=1, timeout=timeout, extra=extra, deque=False)
+    out = r["out"]
+    if "Error:" in out or ("Finished in" not in out):
+        raise ToolError("behaviour generation failed (specification error):\n" + out[-3000:])
+    behs = []
+    for l in out.splitlines():
+        m = re.match(r'<<"REPLAY", "(.*)">>\s*$', l)
+        if m:
+            behs.append(json.loads('"' + m.group(1) + '"'))
+    m = re.search(r"The number of states generated: (\d+)", out)
+    if m:
+        r["generated"] = int(m.group(1))
+        r["distinct"] = len(set(behs))
+    return behs, r
+
+
+def replay_bin(args, timeout=1200):
+    build_harness()
+    rc, out, dt = sh([os.path.join(BIN, 'replay')] + [str(a) for a in args], timeout=timeout)
+    m = re.search(r"REPLAY .*", out)
+    log("[replay]", m.group(0) if m else out[-300:])
+    return out
+
+
 class Run:
     """One invocation of a property check: collects coverage, violations, known findings."""
 
